@@ -75,6 +75,8 @@ PROPS = {
                 "variants.Variants in-process; non-trivial = at least one coding feature or a gapped reference row",
     },
     "C05": {
+        "extra_imports": ["Gofasta.Lemmas.SamIndels"],
+        "extra_theorems": ["Gofasta.Lemmas.SamIndels.sam_ins", "Gofasta.Lemmas.SamIndels.sam_del", "Gofasta.Lemmas.SamIndels.sam_del_mem", "Gofasta.Lemmas.SamIndels.single_ins_op_exact", "Gofasta.Lemmas.SamIndels.single_del_op", "Gofasta.Lemmas.SamIndels.ins_spec_all", "Gofasta.Lemmas.SamIndels.del_spec_all"],
         "cli": True,
         "streams": {"C05": (500, 8000)},
         "thorough_seeds": 3,
@@ -113,8 +115,8 @@ PROPS = {
     },
     "C02": {
         "cli": True,
-        "extra_imports": ["Gofasta.Lemmas.PairSingle", "Gofasta.Lemmas.PairSpec", "Gofasta.Lemmas.PairMulti"],
-        "extra_theorems": ["Gofasta.Lemmas.PairMulti.blockToSeqPair_eq_specPair", "Gofasta.Lemmas.PairMulti.multi_ref_lossless", "Gofasta.Lemmas.PairMulti.multi_lengths",
+        "extra_imports": ["Gofasta.Lemmas.PairSingle", "Gofasta.Lemmas.PairSpec", "Gofasta.Lemmas.PairMulti", "Gofasta.Lemmas.PairSkipIns"],
+        "extra_theorems": ["Gofasta.Lemmas.PairSkipIns.toPairAlign_spec", "Gofasta.Lemmas.PairSkipIns.pairOfBlock_skipIns", "Gofasta.Lemmas.PairSkipIns.walkWithRef_noIns_query", "Gofasta.Lemmas.PairMulti.blockToSeqPair_eq_specPair", "Gofasta.Lemmas.PairMulti.multi_ref_lossless", "Gofasta.Lemmas.PairMulti.multi_lengths",
                            "Gofasta.Lemmas.PairMulti.multi_gap_count", "Gofasta.Lemmas.PairMulti.multi_skip_insertions", "Gofasta.Lemmas.PairMulti.toPairAlign_keepIns_spec",
                            "Gofasta.Lemmas.PairSpec.specPair_lossless", "Gofasta.Lemmas.PairSpec.specPair_skip_insertions",
                            "Gofasta.Lemmas.PairSpec.specPair_lengths", "Gofasta.Lemmas.blockToSeqPair_single", "Gofasta.Lemmas.single_ref_lossless", "Gofasta.Lemmas.single_lengths",
@@ -147,8 +149,8 @@ PROPS = {
     },
     "C08": {
         "cli": True,
-        "extra_imports": ["Gofasta.Lemmas.Balance"],
-        "extra_theorems": ["Gofasta.Lemmas.fillLoop_inv", "Gofasta.Lemmas.fillLoop_sum_le", "Gofasta.Lemmas.fillLoop_mono",
+        "extra_imports": ["Gofasta.Lemmas.Balance", "Gofasta.Lemmas.PushBins", "Gofasta.Lemmas.WhichWaySpec"],
+        "extra_theorems": ["Gofasta.Lemmas.PushBins.pushBin_eq", "Gofasta.Lemmas.PushBins.pushMap_mem_keys_iff", "Gofasta.Lemmas.PushBins.topRankingQuery_push", "Gofasta.Lemmas.WhichWaySpec.whichWayTable_spec", "Gofasta.Lemmas.WhichWaySpec.whichWay_getLine", "Gofasta.Lemmas.WhichWaySpec.topRankingQuery_getLine", "Gofasta.Lemmas.fillLoop_inv", "Gofasta.Lemmas.fillLoop_sum_le", "Gofasta.Lemmas.fillLoop_mono",
                            "Gofasta.Lemmas.fillLoop_complete", "Gofasta.Lemmas.balance_fill_spec", "Gofasta.Lemmas.fillLoop_even",
                            "Gofasta.Lemmas.balance_even"],
         "streams": {"C08": (600, 10000)},
